@@ -129,12 +129,16 @@ func genDirect(r *rng.R, tier string, clones bool) corr.Case {
 		// after a mutation, read every handle now and then (clone isolation both ways)
 		if handles > 1 && r.Chance(1, 4) {
 			for j := 0; j < handles; j++ {
-				lines = append(lines, fmt.Sprintf("scan %d asc - - all", j), fmt.Sprintf("len %d", j))
+				lines = append(lines, fmt.Sprintf("scan %d asc - - all", j), fmt.Sprintf("len %d", j), fmt.Sprintf("owned %d", j))
 			}
+		}
+		if r.Chance(1, 12) {
+			lines = append(lines, fmt.Sprintf("owned %d", h), fmt.Sprintf("cons %d", h))
 		}
 	}
 	for j := 0; j < handles; j++ {
-		lines = append(lines, fmt.Sprintf("chk %d", j), fmt.Sprintf("len %d", j), fmt.Sprintf("scan %d asc - - all", j))
+		lines = append(lines, fmt.Sprintf("chk %d", j), fmt.Sprintf("len %d", j), fmt.Sprintf("scan %d asc - - all", j),
+			fmt.Sprintf("owned %d", j), fmt.Sprintf("cons %d", j))
 	}
 	if r.Chance(1, 3) {
 		lines = sweep(r, r.Intn(handles), K, lines)
@@ -191,7 +195,7 @@ func genGrowShrink(r *rng.R, tier string) corr.Case {
 			lines = append(lines, scanLine(0, r.Pick("ascgt", "desclt", "ascge", "descle"), r.Range(-1, K+1), 0, "all"))
 		}
 	}
-	lines = append(lines, "len 0", "scan 0 asc - - all", "min 0", "max 0", "del 0 1")
+	lines = append(lines, "len 0", "scan 0 asc - - all", "min 0", "max 0", "del 0 1", "owned 0", "cons 0")
 	if withClone {
 		lines = append(lines, "chk 1", "len 1", "scan 1 asc - - all", "scan 1 desc - - all")
 	}
@@ -199,9 +203,9 @@ func genGrowShrink(r *rng.R, tier string) corr.Case {
 		ver++
 		lines = append(lines, fmt.Sprintf("ins 0 %d %d", k, ver))
 	}
-	lines = append(lines, "chk 0", "len 0", "scan 0 desc - - all")
+	lines = append(lines, "chk 0", "len 0", "scan 0 desc - - all", "owned 0", "cons 0")
 	if withClone {
-		lines = append(lines, "scan 1 asc - - all")
+		lines = append(lines, "scan 1 asc - - all", "owned 1", "cons 1")
 	}
 	return corr.Case{Tag: "grow-shrink", Lines: lines}
 }
@@ -267,7 +271,7 @@ func genMalformed(r *rng.R) corr.Case {
 	lines := []string{r.Pick("new 2", "new 3", "neww")}
 	bad := []string{"", "foo", "ins", "ins 0", "ins 0 x 1", "ins 0 1 -1", "ins 9 1 1", "del 0", "del 0 1 2", "scan 0 ascgt - - all",
 		"scan 0 asc 1 - all", "scan 0 nope 1 - all", "scan 0 ascgt 1 - maybe", "scan 0 ascrange 1 - all", "get 0 1234567890", "clone 7",
-		"clear 0 2", "wins 1", "wscan ge 1 all 1", "wscan gte 1 all x", "wscan gte 1 some 1", "wupd 1 2", "new 1", "new 65", "new x", "neww 2",
+		"clear 0 2", "owned 9", "cons x", "wins 1", "wscan ge 1 all 1", "wscan gte 1 all x", "wscan gte 1 some 1", "wupd 1 2", "new 1", "new 65", "new x", "neww 2",
 		"len", "chk -1", "wget 00000000001", "wdel --1", "has 0 1 1", "min 0 0", "wconc 5 1", "wconc 1 1000"}
 	good := []string{"ins 0 1 1", "ins 0 2 2", "ins 0 3 3", "del 0 2", "scan 0 asc - - all", "len 0", "wins 1 1", "wins 2 2", "wdel 1", "wscan gte 0 all 5", "wlen", "get 0 1", "wget 2", "clone 0"}
 	n := r.Range(6, 20)
@@ -329,7 +333,9 @@ func fixedCases() []corr.Case {
 		c = append(c, fmt.Sprintf("ins 0 %d %d", k, k))
 	}
 	c = append(c, "clone 0", "ins 1 6 100", "del 1 1", "get 0 6", "get 0 1", "get 1 6", "get 1 1", "ins 0 13 200", "del 0 12", "scan 1 asc - - all", "scan 0 asc - - all",
-		"clone 1", "clear 1 1", "scan 2 asc - - all", "len 2", "len 1", "ins 1 3 300", "scan 2 asc - - all", "scan 0 desc - - all", "chk 0", "chk 1", "chk 2")
+		"owned 0", "owned 1", "cons 0", "cons 1",
+		"clone 1", "clear 1 1", "scan 2 asc - - all", "len 2", "len 1", "ins 1 3 300", "scan 2 asc - - all", "scan 0 desc - - all", "chk 0", "chk 1", "chk 2",
+		"owned 0", "owned 1", "owned 2", "cons 0", "cons 1", "cons 2")
 	for k := 1; k <= 13; k++ {
 		c = append(c, fmt.Sprintf("del 0 %d", k), "chk 0", "scan 2 asc - - all")
 	}
@@ -344,11 +350,11 @@ func spec() corr.Spec {
 		Count: func(tier string) int {
 			switch tier {
 			case "quick":
-				return 1500
+				return 5000
 			case "thorough":
-				return 20000
+				return 60000
 			}
-			return 40000
+			return 100000
 		},
 		Gen: func(r *rng.R, tier string, i int) corr.Case {
 			switch x := r.Intn(20); {
@@ -364,6 +370,9 @@ func spec() corr.Spec {
 			return genMalformed(r)
 		},
 		Run: runCase,
+		TOnly: func(line string) bool {
+			return strings.HasPrefix(line, "owned ") || strings.HasPrefix(line, "cons ")
+		},
 		NonTrivial: func(c corr.Case, res corr.Result) bool {
 			// at least three stored items at some point and a non-empty scan result
 			ins, scans := 0, 0
